@@ -14,49 +14,49 @@ import (
 // Export shim for the verification harness (never compiled without the
 // `verif` build tag, never copied into the repository).
 
-func VerifSerializeAccount(w *bytes.Buffer, a *account.Account) error {
+func VerifC10SerializeAccount(w *bytes.Buffer, a *account.Account) error {
 	return serializeAccount(w, a)
 }
 
-func VerifDeserializeAccount(r io.Reader) (*account.Account, error) {
+func VerifC10DeserializeAccount(r io.Reader) (*account.Account, error) {
 	return deserializeAccount(r)
 }
 
-func VerifSerializeOrderTlvData(w io.Writer, o order.Order) error {
+func VerifC10SerializeOrderTlvData(w io.Writer, o order.Order) error {
 	return serializeOrderTlvData(w, o)
 }
 
-func VerifDeserializeOrderTlvData(r io.Reader, o order.Order) error {
+func VerifC10DeserializeOrderTlvData(r io.Reader, o order.Order) error {
 	return deserializeOrderTlvData(r, o)
 }
 
-func VerifSerializeLocalBatchSnapshot(w *bytes.Buffer, b *LocalBatchSnapshot) error {
+func VerifC10SerializeLocalBatchSnapshot(w *bytes.Buffer, b *LocalBatchSnapshot) error {
 	return serializeLocalBatchSnapshot(w, b)
 }
 
-func VerifDeserializeLocalBatchSnapshot(r io.Reader) (*LocalBatchSnapshot, error) {
+func VerifC10DeserializeLocalBatchSnapshot(r io.Reader) (*LocalBatchSnapshot, error) {
 	return deserializeLocalBatchSnapshot(r)
 }
 
-// VerifStorePendingBatchSnapshot writes the snapshot under the pending key in
+// VerifC10StorePendingBatchSnapshot writes the snapshot under the pending key in
 // its own update transaction.
-func (db *DB) VerifStorePendingBatchSnapshot(s *LocalBatchSnapshot) error {
+func (db *DB) VerifC10StorePendingBatchSnapshot(s *LocalBatchSnapshot) error {
 	return db.Update(func(tx *bbolt.Tx) error {
 		return storePendingBatchSnapshot(tx, s)
 	})
 }
 
-// VerifFinalizeBatchSnapshot moves the pending snapshot to the sequence
+// VerifC10FinalizeBatchSnapshot moves the pending snapshot to the sequence
 // bucket under the given batch ID.
-func (db *DB) VerifFinalizeBatchSnapshot(id order.BatchID) error {
+func (db *DB) VerifC10FinalizeBatchSnapshot(id order.BatchID) error {
 	return db.Update(func(tx *bbolt.Tx) error {
 		return finalizeBatchSnapshot(tx, id)
 	})
 }
 
-// VerifRawAccount returns the raw bytes stored for an account key (nil if
+// VerifC10RawAccount returns the raw bytes stored for an account key (nil if
 // absent).
-func (db *DB) VerifRawAccount(key []byte) []byte {
+func (db *DB) VerifC10RawAccount(key []byte) []byte {
 	var res []byte
 	_ = db.View(func(tx *bbolt.Tx) error {
 		b, err := getBucket(tx, accountBucketKey)
@@ -71,21 +71,21 @@ func (db *DB) VerifRawAccount(key []byte) []byte {
 	return res
 }
 
-// VerifRawOrder returns the four raw values of an order bucket (nil = key
+// VerifC10RawOrder returns the four raw values of an order bucket (nil = key
 // absent) and whether the bucket exists.
-func (db *DB) VerifRawOrder(nonce order.Nonce) (base, minUnits, tlvData, tier []byte, ok bool) {
+func (db *DB) VerifC10RawOrder(nonce order.Nonce) (base, minUnits, tlvData, tier []byte, ok bool) {
 	_ = db.View(func(tx *bbolt.Tx) error {
 		root, err := getBucket(tx, ordersBucketKey)
 		if err != nil {
 			return err
 		}
-		base, minUnits, tlvData, tier, ok = verifRawOrderIn(root, nonce)
+		base, minUnits, tlvData, tier, ok = verifC10RawOrderIn(root, nonce)
 		return nil
 	})
 	return
 }
 
-func verifRawOrderIn(root *bbolt.Bucket, nonce order.Nonce) (base, minUnits, tlvData, tier []byte, ok bool) {
+func verifC10RawOrderIn(root *bbolt.Bucket, nonce order.Nonce) (base, minUnits, tlvData, tier []byte, ok bool) {
 	ob := root.Bucket(nonce[:])
 	if ob == nil {
 		return
@@ -104,8 +104,8 @@ func verifRawOrderIn(root *bbolt.Bucket, nonce order.Nonce) (base, minUnits, tlv
 	return
 }
 
-// VerifRawBidTemplate returns the raw values of a sidecar bid template.
-func (db *DB) VerifRawBidTemplate(nonce order.Nonce) (base, minUnits, tlvData, tier []byte, ok bool) {
+// VerifC10RawBidTemplate returns the raw values of a sidecar bid template.
+func (db *DB) VerifC10RawBidTemplate(nonce order.Nonce) (base, minUnits, tlvData, tier []byte, ok bool) {
 	_ = db.View(func(tx *bbolt.Tx) error {
 		sc, err := getBucket(tx, sidecarsBucketKey)
 		if err != nil {
@@ -115,14 +115,14 @@ func (db *DB) VerifRawBidTemplate(nonce order.Nonce) (base, minUnits, tlvData, t
 		if bb == nil {
 			return nil
 		}
-		base, minUnits, tlvData, tier, ok = verifRawOrderIn(bb, nonce)
+		base, minUnits, tlvData, tier, ok = verifC10RawOrderIn(bb, nonce)
 		return nil
 	})
 	return
 }
 
-// VerifRawPendingSnapshot returns the raw pending snapshot bytes.
-func (db *DB) VerifRawPendingSnapshot() []byte {
+// VerifC10RawPendingSnapshot returns the raw pending snapshot bytes.
+func (db *DB) VerifC10RawPendingSnapshot() []byte {
 	var res []byte
 	_ = db.View(func(tx *bbolt.Tx) error {
 		b, err := getBucket(tx, batchSnapshotBucketKey)
@@ -137,8 +137,8 @@ func (db *DB) VerifRawPendingSnapshot() []byte {
 	return res
 }
 
-// VerifRawSnapshot returns the raw finalized snapshot bytes of a batch ID.
-func (db *DB) VerifRawSnapshot(id order.BatchID) []byte {
+// VerifC10RawSnapshot returns the raw finalized snapshot bytes of a batch ID.
+func (db *DB) VerifC10RawSnapshot(id order.BatchID) []byte {
 	var res []byte
 	_ = db.View(func(tx *bbolt.Tx) error {
 		_, seqBucket, indexBucket, err := getSnapshotBuckets(tx)
@@ -159,4 +159,22 @@ func (db *DB) VerifRawSnapshot(id order.BatchID) []byte {
 		return nil
 	})
 	return res
+}
+
+// VerifC10RawPendingOrder returns the raw values of an order staged in the
+// pending-batch orders bucket.
+func (db *DB) VerifC10RawPendingOrder(nonce order.Nonce) (base, minUnits, tlvData, tier []byte, ok bool) {
+	_ = db.View(func(tx *bbolt.Tx) error {
+		bucket, err := getBucket(tx, batchBucketKey)
+		if err != nil {
+			return err
+		}
+		pending := bucket.Bucket(pendingBatchOrdersBucketKey)
+		if pending == nil {
+			return nil
+		}
+		base, minUnits, tlvData, tier, ok = verifC10RawOrderIn(pending, nonce)
+		return nil
+	})
+	return
 }
